@@ -257,6 +257,17 @@ def simplify_math_iterators(source: str) -> str:
                 for node in core.walk(arg, ast.Call)
             ):
                 continue
+            stepped_ranges = [
+                generator.iter
+                for generator in arg.generators
+                if isinstance(generator.iter, ast.Call) and len(generator.iter.args) == 3
+            ]
+            if not all(
+                _integer_literal_value(value) is not None and _integer_literal_value(rng.args[2])
+                for rng in stepped_ranges
+                for value in rng.args
+            ):
+                continue  # The number of steps can only be computed from numbers
             yield from closed_form(node, _integrate_over(arg.elt, arg.generators))
 
 
